@@ -476,6 +476,14 @@ def domain_guard(chk, prog, refs=None):
             continue
         f = prog.func(ref)
         iv = Intervals(f).analyse()
+        if not iv.sites:
+            # the restricted calls may have been moved into helpers of the same module / class: analyse those the function calls (one level)
+            for c in ast.walk(f.node):
+                if isinstance(c, ast.Call):
+                    g, _ = _resolve_callee(prog, f, c)
+                    if g is not None and g.module is f.module and g is not f:
+                        sub = Intervals(g).analyse()
+                        iv.sites.extend(sub.sites)
         for s_ in iv.sites:
             n += 1
             site = "%s::%s(%s)" % (ref, s_["kind"], s_["arg"][:60])
@@ -685,4 +693,51 @@ def unit_guard(chk, prog, files):
                                 "`%s` converts a caller-supplied angle whatever `%s` says, while the same function converts under `if %s`: for one setting of the flag the value "
                                 "is converted twice or tested in the wrong unit" % (ast.unparse(x)[:60], flag, flag), line=x.lineno)
     chk.counts["UNIT-GUARD.conversions"] = chk.counts.get("UNIT-GUARD.conversions", 0) + n
+    return n
+
+
+# ------------------------------------------------------------------------------------------------------------ GATE-BAND
+# rotation-angle band (rad) a tolerance gate may capture, per property; gates beyond it replace the exact formula on a band of genuine rotations
+GATE_LIMIT = {"C01": 1e-6, "C02": 1e-6, "C07": 1e-6, "C09": 1e-6, "C10": 1e-6, "C11": 1e-6, "C12": 1e-6, "C18": 1e-6, "C19": 1e-6, "C03": 1e-6, "C04": 1e-6}
+
+
+def gate_report(chk, pid):
+    """Every np.isclose/np.allclose comparison that any interpretation of this run met on symbolic unit quaternions is mapped to the band of rotation
+    angles it captures (closing at the identity or at the half-turn); a band wider than the property tolerates is reported with the function that gates."""
+    from .symeval import Interp
+    from .lib import gate_angle_band
+    from . import poly as P
+    limit = GATE_LIMIT.get(pid)
+    if limit is None:
+        return 0
+    seen = set()
+    n = 0
+    for fn, lhs, rhs, tol, answer in list(Interp.GATE_LOG):
+        try:
+            names = sorted(P.atom(a).name for a in (lhs - rhs).atoms() if P.atom(a).kind == "sym")
+        except Exception:
+            continue
+        prefixes = {nm[:-1] for nm in names if nm[-1:] in "wxyz" and len(nm) > 1}
+        if len(prefixes) != 1 or not all(nm[:-1] in prefixes and nm[-1] in "wxyz" for nm in names):
+            continue                      # not a function of one quaternion only
+        pre = prefixes.pop()
+        key = (fn, str(lhs)[:80], str(rhs)[:20], tol)
+        if key in seen:
+            continue
+        seen.add(key)
+        b = gate_angle_band(lhs, rhs, tol[0], tol[1], [pre + c for c in "wxyz"])
+        if not b or b == "foreign":
+            continue
+        n += 1
+        where, width, p_, k_ = b
+        site = "%s::isclose(%s, %s)" % (fn, str(lhs)[:50], rhs)
+        if width > limit:
+            rel, _, q = fn.partition("::")
+            why = "the tolerance test isclose(%s, %s) (rtol=%g, atol=%g) in %s is true for every rotation within %.3e rad of %s; the formula it short-cuts is replaced on that whole band " \
+                  "(allowed: %.0e rad)" % (str(lhs)[:50], rhs, tol[0], tol[1], q, width, "a half-turn" if where == "pi" else "the identity", limit)
+            chk.record("GATE-BAND", site, "tolerance gate captures a negligible band of rotations", verdict="VIOLATION", detail=why)
+            chk.finding("GATE-BAND", rel, q, "isclose gate closing at %s" % ("pi" if where == "pi" else "0"), why)
+        else:
+            chk.record("GATE-BAND", site, "gate captures rotations within %.3e rad of %s only" % (width, "pi" if where == "pi" else "0"))
+    chk.counts["GATE-BAND.gates"] = n
     return n
